@@ -104,9 +104,10 @@ def discharge(obs, lw: L.Lowerer = None, timeout=20.0, levels=(1, 2), pool=None,
     triv = [o for o in obs if o.trivial]
     # trivial obligations (both sides are the same DAG node) are still sent, batched into one query
     if triv:
-        lwt = L.Lowerer()
+        # both sides are one hash-consed node: abstract it by a fresh real (sound), so the text stays small
+        lwt = L.Lowerer(cuts={o.lhs.nid: True for o in triv})
         forms, deps = [], []
-        for o in triv[:2000]:
+        for o in triv[:5000]:
             f, dp = lwt.ne(o.lhs, o.rhs)
             forms.append(f)
             deps += list(dp)
@@ -118,88 +119,119 @@ def discharge(obs, lw: L.Lowerer = None, timeout=20.0, levels=(1, 2), pool=None,
             o.time = r["time"] / max(1, len(triv))
     nkept = 0
     maxlevel = max(levels)
-    # ---- stage A: cross-multiplied encoding, free atoms, short timeout (discharges almost everything)
-    if todo:
-        jobs = []
-        for o in todo:
-            l = L.Lowerer() if per_ob_lowerer else lw
-            text, used = _text_for(l, o, min(levels))
-            o.symbols = used
-            if nkept < keep_text:
-                o.text = text
-                nkept += 1
-            jobs.append((text, min(timeout, max(3.0, timeout / 4.0)), "z3", True))
-        res = pool.run(jobs)
-        left = []
-        for o, r in zip(todo, res):
-            o.time += r.get("time", 0.0)
-            o.level = "pairs/%d" % min(levels)
-            if r["result"] == "unsat":
-                o.verdict = "discharged"
-            else:
-                o.verdict = "inconclusive"
-                o.detail = r.get("detail", r["result"])
-                if r["result"] == "sat":
-                    o.model = r.get("model", {})
-                    if min(levels) >= maxlevel:
-                        o.verdict = "candidate"
-                        continue
-                left.append((o, r["result"]))
-        if log:
-            log("  stage A: %d queries, %d left" % (len(todo), len(left)))
-        # ---- stage B: portfolio for the rest, all variants at once
-        if left:
-            jobs, tags = [], []
-            for o, first in left:
-                variants = []
-                if first != "sat":  # sat under free atoms is final for level 1; only level 2 can refute it
-                    if o.cond is None and cut_threshold:
-                        prev = None
-                        for mode in ("max", "deep"):
-                            cuts = shared_cuts(o.lhs, o.rhs, cut_threshold, mode)
-                            if cuts and cuts != prev:
-                                prev = cuts
-                                variants.append(("cut-%s" % mode, dict(cuts=cuts), 1))
-                                variants.append(("cut-%s-divvar" % mode, dict(cuts=cuts, divvar=True), 1))
-                    variants.append(("divvar", dict(divvar=True), 1))
-                    variants.append(("pairs", dict(), 1))
-                for lv in levels:
-                    if lv > 1:
-                        variants.append(("divvar", dict(divvar=True), lv))
-                        variants.append(("pairs", dict(), lv))
-                for name, kw, lv in variants:
-                    try:
-                        text, used = _text_for(L.Lowerer(**kw), o, lv)
-                    except KeyError:
-                        continue
-                    jobs.append((text, timeout, "z3", True))
-                    tags.append((o, name, lv))
-            groups = [id(t[0]) for t in tags]
+    minlevel = min(levels)
 
-            def final(qid, r):
-                o, name, lv = tags[qid]
-                return r["result"] == "unsat" or (r["result"] == "sat" and lv >= maxlevel and not name.startswith("cut"))
+    def variants_for(o, first=None):
+        vs = []
+        if first != "sat":  # sat under free atoms is final for level 1; only level 2 can refute it
+            vs.append(("pairs", dict(), minlevel))
+            if o.cond is None and cut_threshold:
+                prev = None
+                for mode in ("deep", "max"):
+                    cuts = shared_cuts(o.lhs, o.rhs, cut_threshold, mode)
+                    if cuts and cuts != prev:
+                        prev = cuts
+                        vs.append(("cut-%s" % mode, dict(cuts=cuts), minlevel))
+                        vs.append(("cut-%s-sqrw" % mode, dict(cuts=cuts, sqrt_rewrite=True), minlevel))
+                        vs.append(("cut-%s-divvar" % mode, dict(cuts=cuts, divvar=True), minlevel))
+            vs.append(("divvar", dict(divvar=True), minlevel))
+            vs.append(("sqrw", dict(sqrt_rewrite=True), minlevel))
+        for lv in levels:
+            if lv > minlevel:
+                vs.append(("pairs", dict(), lv))
+                vs.append(("divvar", dict(divvar=True), lv))
+                vs.append(("sqrw", dict(sqrt_rewrite=True), lv))
+        return vs
 
-            res = pool.run(jobs, groups=groups, final=final)
-            for (o, name, lv), r in zip(tags, res):
-                o.time += r.get("time", 0.0)
-                if r["result"] == "unsat":
-                    if o.verdict != "discharged":
-                        o.verdict = "discharged"
-                        o.level = "%s/%d" % (name, lv)
-                        o.model = None
-            for (o, name, lv), r in zip(tags, res):
-                if o.verdict == "discharged":
+    state = {"nkept": 0, "queries": 0}
+
+    def run_wave(items, rank=None, limit=None, tmo=None, skip=0):
+        """items: list of (ob, first-result).  Portfolio with early cancellation per obligation."""
+        jobs, tags = [], []
+        for o, first in items:
+            vs = variants_for(o, first)
+            if rank is not None:
+                vs.sort(key=lambda v: rank.get((v[0], v[2]), 99))
+            vs = vs[skip:]
+            if limit:
+                vs = vs[:limit]
+            for name, kw, lv in vs:
+                try:
+                    l = lw if (not kw and not per_ob_lowerer) else L.Lowerer(**kw)
+                    text, used = _text_for(l, o, lv)
+                except KeyError:
                     continue
-                if r["result"] == "sat" and lv >= maxlevel and not name.startswith("cut"):
+                if state["nkept"] < keep_text and o.text is None:
+                    o.text = text
+                    state["nkept"] += 1
+                jobs.append((text, tmo or timeout, "z3", True))
+                tags.append((o, name, lv))
+        if not jobs:
+            return {}
+        groups = [id(t[0]) for t in tags]
+
+        def final(qid, r):
+            o, name, lv = tags[qid]
+            return r["result"] == "unsat" or (r["result"] == "sat" and lv >= maxlevel and not name.startswith("cut"))
+
+        res = pool.run(jobs, groups=groups, final=final)
+        state["queries"] += len(jobs)
+        wins = {}
+        for (o, name, lv), r in zip(tags, res):
+            o.time += r.get("time", 0.0)
+            if r["result"] == "unsat" and o.verdict != "discharged":
+                o.verdict = "discharged"
+                o.level = "%s/%d" % (name, lv)
+                o.model = None
+                o.detail = ""
+                wins[(name, lv)] = wins.get((name, lv), 0) + 1
+        for (o, name, lv), r in zip(tags, res):
+            if o.verdict == "discharged":
+                continue
+            if r["result"] == "sat" and not name.startswith("cut"):
+                o.model = r.get("model", {})
+                o.meta["_sat_level"] = max(o.meta.get("_sat_level", 0), lv)
+                if lv >= maxlevel:
                     o.verdict = "candidate"
                     o.level = "%s/%d" % (name, lv)
-                    o.model = r.get("model", {})
-                elif o.verdict != "candidate":
+                    wins[(name, lv)] = wins.get((name, lv), 0) + 1
+            if o.verdict not in ("candidate",):
+                o.verdict = "inconclusive"
+                if r["result"] not in ("skipped",):
                     o.detail = r.get("detail", r["result"])
-            if log:
-                log("  stage B: %d portfolio queries for %d obligations, %d not discharged" % (
-                    len(jobs), len(left), sum(1 for o, _ in left if o.verdict != "discharged")))
+        return wins
+
+    def first_of(o):
+        return "sat" if o.meta.get("_sat_level", 0) >= minlevel and minlevel < maxlevel else None
+
+    if todo:
+        # ---- probe: a few obligations try every variant at once; variants are ranked by wins
+        k = min(3, len(todo))
+        step = max(1, len(todo) // k)
+        probe = todo[::step][:k]
+        wins = run_wave([(o, None) for o in probe])
+        order = sorted(wins, key=lambda q: -wins[q])
+        rank = {q: i for i, q in enumerate(order)}
+        rest = [o for o in todo if o.verdict is None]
+        # ---- main pass: the best-ranked variant alone, short timeout (no cancellations needed)
+        if rest:
+            wins2 = run_wave([(o, None) for o in rest], rank=rank, limit=1, tmo=min(timeout, max(3.0, timeout / 4.0)))
+            for q, c in wins2.items():
+                wins[q] = wins.get(q, 0) + c
+            order = sorted(wins, key=lambda q: -wins[q])
+            rank = {q: i for i, q in enumerate(order)}
+        # ---- leftovers: next-best three variants, then everything
+        left = [o for o in todo if o.verdict not in ("discharged", "candidate")]
+        if left:
+            run_wave([(o, first_of(o)) for o in left], rank=rank, limit=4)
+            left = [o for o in left if o.verdict not in ("discharged", "candidate")]
+        if left:
+            run_wave([(o, first_of(o)) for o in left], rank=rank, skip=4)
+        if log:
+            log("  %d non-trivial obligations, %d solver queries, ranking %s, %d not discharged" % (
+                len(todo), state["queries"], order[:3], sum(1 for o in todo if o.verdict != "discharged")))
+    for o in obs:
+        o.meta.pop("_sat_level", None)
     return obs
 
 
